@@ -266,10 +266,15 @@ var randomProp = &vt.Prop[Case]{
 		deep := rapid.IntRange(0, 199).Draw(t, "deep") == 0
 		for i := 0; i < n; i++ {
 			if deep && i == 0 {
-				d := rapid.IntRange(6, 250).Draw(t, "depth")
+				// The scanner accepts 256 nested containers; the hook parser
+				// adds one array around the case, so 255 is the limit here.
+				d := rapid.OneOf(rapid.IntRange(6, 255), rapid.SampledFrom([]int{253, 254, 255})).Draw(t, "depth")
 				pat := rapid.Uint64().Draw(t, "pattern")
 				leaf := gen.Obj(gen.ObjOpts{MaxDepth: 1}).Draw(t, "leaf")
 				d -= leaf.Depth()
+				if leaf.T == "nildict" {
+					d-- // written as "<<>>" (known finding C01-nil-dict), which counts as a container
+				}
 				c.Objs = append(c.Objs, gen.Deep(d, pat, leaf))
 				continue
 			}
